@@ -25,8 +25,6 @@ VARIANTS = {
                       san=['-fsanitize=fuzzer-no-link,address,undefined', '-fno-sanitize-recover=undefined'],
                       link=['-fsanitize=address,undefined']),
     'tsan-direct': dict(cxx='clang++', machine='direct', san=['-fsanitize=thread'], link=['-fsanitize=thread']),
-    # plain optimised build: used for exhaustive enumerators where ASan is not the oracle
-    'plain-direct': dict(cxx='clang++', machine='direct', san=['-O2'], link=[]),
 }
 
 # harness programs: name -> (source, kind)  kind: 'exe' plain main(), 'fuzz' libFuzzer target
@@ -50,7 +48,6 @@ VARIANT_PROGRAMS = {
     'asan-direct': None,
     'asan-call': ['grdrv', 'pbt_vm'],
     'tsan-direct': ['mt_shape'],
-    'plain-direct': ['grdrv', 'enum_cmap'],
 }
 
 
